@@ -44,6 +44,8 @@ def s_run(rng, budget_words=2600):
     if j["K"] <= 4 and rng.random() < 0.125:
         j["battery"] = 1
     if rng.random() < 0.25:
+        j["ops"] = rng.getrandbits(31) | 1  # other public API calls between the draws
+    if rng.random() < 0.25:
         j["extra_flags"] = [rng.choice(["-Zmiri-compare-exchange-weak-failure-rate=0.2",
                                         "-Zmiri-address-reuse-cross-thread-rate=0.5",
                                         "-Zmiri-address-reuse-rate=0.9"])]
@@ -61,7 +63,22 @@ def m_run(rng, reps):
     kmax = max(1, 8 // P)
     K = rng.randint(1, min(3, kmax))
     main = rng.randint(0, 1) if K > 1 or P <= 4 else 0
-    return _job("M", rng, K=K - main if K > 1 else K, main=main if K > 1 else 0, D=reps, sizes=sorted(set(n for _, n in cyc)), cycle=cyc, types="both",
+    j = _job("M", rng, K=K - main if K > 1 else K, main=main if K > 1 else 0, D=reps, sizes=sorted(set(n for _, n in cyc)), cycle=cyc, types="both",
+             preempt=rng.choice(PREEMPT), **{"yield": rng.randint(0, 1)})
+    if rng.random() < 0.25:
+        j["ops"] = rng.getrandbits(31) | 1
+    return j
+
+
+NOPS = 20  # keep in step with sim/src/ops.rs
+
+
+def o_run(rng, op):
+    """Op sweep: the same other public API call after EVERY draw, 256 draws per size and type."""
+    sizes = [rng.choice([2, 3, 4, 5, 6, 0, 1, 7, 3, 4, 5, 6])]
+    ops = 2 * (op + NOPS * (1 + rng.randrange(63)))  # even seed = fixed mode: op = (ops/2) % NOPS, arg = (ops/2) / NOPS
+    k, m = rng.choice([(1, 0), (0, 1), (1, 1)])
+    return _job("O", rng, K=k, main=m, D=256, sizes=sizes, types="both", ops=ops,
                 preempt=rng.choice(PREEMPT), **{"yield": rng.randint(0, 1)})
 
 
@@ -89,6 +106,9 @@ def make_plan(seed, tier):
         # M — mixed-size cycles, 1024 repetitions: call-context groups up to every 4th repetition
         for _ in range(8):
             jobs.append(m_run(rng, 1024))
+        # O — every neighbour operation once, after every draw
+        for op in range(NOPS):
+            jobs.append(o_run(rng, op))
         n_s = 64
     else:
         for typ, n in combos:
@@ -106,6 +126,9 @@ def make_plan(seed, tier):
                              preempt=rng.choice(PREEMPT), **{"yield": rng.randint(0, 1)}))
         for _ in range(48):
             jobs.append(m_run(rng, 2048))
+        for rep in range(3):
+            for op in range(NOPS):
+                jobs.append(o_run(rng, op))
         n_s = 768
     for _ in range(n_s):
         jobs.append(s_run(rng))
